@@ -14,7 +14,7 @@ from .common import gt
 PROP = "C11"
 
 BOUNDS = {
-    "quick": "Kalman T=6 (Dz=2) and T=8 (Dz=1) with all model matrices bound to generic rationals and initial mean, offsets and data symbolic; prior built from Sigma / Sigma+Lambda / all three / a measure / diagonal; regression: N=2 observations with individual (M_i,b_i,Sigma_i), Dy=1; Dw=1 fully symbolic, Dw=2 with the matrices bound to generic rationals (means, offsets and data symbolic) and with M symbolic (covariances concrete); both update orders; routes: sequential, joint+condition_on, prior*prod set_y; Kalman: T=2, scalar state fully symbolic, 2-d state with concrete matrices",
+    "quick": "regression with N=4 observations and all 24 update orders (matrices concrete); Kalman T=6 (Dz=2) and T=8 (Dz=1) with all model matrices bound to generic rationals and initial mean, offsets and data symbolic; prior built from Sigma / Sigma+Lambda / all three / a measure / diagonal; regression: N=2 observations with individual (M_i,b_i,Sigma_i), Dy=1; Dw=1 fully symbolic, Dw=2 with the matrices bound to generic rationals (means, offsets and data symbolic) and with M symbolic (covariances concrete); both update orders; routes: sequential, joint+condition_on, prior*prod set_y; Kalman: T=2, scalar state fully symbolic, 2-d state with concrete matrices",
     "thorough": "Kalman T=12 (Dz=2,Dy=1), T=8 (2,2), T=6 (3,2) with concrete matrices; N=3 (all 6 orders) semi-symbolic, Dy=2, T=3 scalar, T=2 with Dz=2 and symbolic A or C",
 }
 ASSUMPTIONS = ["fully symbolic filters beyond T=3 and N>3 are outside (expression growth is exponential in the number of nested inverses); T up to 12 is covered with the model matrices bound to seeded generic rationals (a sample in the matrices, universally quantified in the initial mean, offsets and all data); explored orders are all permutations for the stated N"]
@@ -242,6 +242,9 @@ def cases(tier, seed=0):
            kalman_case(2, 1, 2, concrete=("A", "Q", "C", "R", "S0")),
            kalman_case(2, 1, 2, concrete=("A", "Q", "R", "S0")),
            kalman_case(1, 2, 2, concrete=("R",)),
+           # N = 4 observations, all 24 update orders; matrices generic rationals, prior mean / offsets / data symbolic
+           regression_case(2, 1, 4, concrete=("Sw", "M", "Sy"), timeout=1200),
+           regression_case(2, 2, 4, concrete=("Sw", "M", "Sy"), timeout=1200),
            # long filters: all model matrices generic rationals, initial mean / offsets / all data symbolic
            kalman_case(2, 1, 6, concrete=("A", "Q", "C", "R", "S0")),
            kalman_case(1, 1, 8, concrete=("A", "Q", "C", "R", "S0"))]
